@@ -196,6 +196,9 @@ def check_range(n, sampling):
 
 
 def replay(rep):
+    if rep.get('replay', {}).get('form') == 'routes':
+        from props import _estimators as E_
+        return E_.replay_routes(rep['replay'])
     r = rep['replay']
     try:
         if r['what'] == 'tone':
@@ -220,6 +223,9 @@ def run(ctx):
     from spectrum.psd import Range
     rng = ctx.rng
     ctx.check_theorems('Properties/C02.v')
+    # the estimate an object holds does not depend on the history that gave it its data and settings (every route of _estimators.via)
+    from props import _estimators as E_
+    E_.class_route_stream(ctx, E_.CLASSES, 'routes')
 
     # ---------------- translator + theorems over the generated pipeline table (lengths, placement on the axis)
     src = os.path.join(vlib.SNAP, 'src', 'spectrum')
